@@ -375,6 +375,47 @@ func exercise(x *h.X, s *scheme, id uint32) {
 		x.Eval(nrej)
 		x.Count("mutations", nrej)
 	}
+	// The caller keeps ONE context-info buffer and rewrites it in place between calls on the same primitive objects:
+	// every call must bind the contents the buffer has AT THAT CALL (an info hash cached under the caller's slice
+	// instead of a copy binds, or accepts, the previous call's context info).
+	if bad {
+		return
+	}
+	infoA, infoB := ref.Pattern(3, 24), ref.KeyBytes("c06-info-b", 24)
+	pt := ref.Pattern(2, 19)
+	buf := bytes.Clone(infoA)
+	reseed(s.cfg + "|reuse-a")
+	ctA, errA := s.enc.Encrypt(pt, buf)
+	copy(buf, infoB)
+	reseed(s.cfg + "|reuse-b")
+	ctB, errB := s.enc.Encrypt(pt, buf)
+	x.Eval(6)
+	if errA != nil || errB != nil {
+		fail("encrypt-error", "%s: Encrypt with a reused context-info buffer: %v %v", s.cfg, errA, errB)
+		return
+	}
+	for _, ro := range s.refOpen {
+		if got, err := ro.f(ctB[pl:], bytes.Clone(infoB)); err != nil || !bytes.Equal(got, pt) {
+			fail("info-buffer-reuse", "%s: context-info buffer rewritten in place between two Encrypt calls: %s cannot open the second ciphertext under the second context info: %v", s.cfg, ro.name, err)
+		}
+	}
+	if got, err := s.dec.Decrypt(ctB, bytes.Clone(infoB)); err != nil || !bytes.Equal(got, pt) {
+		fail("info-buffer-reuse", "%s: context-info buffer rewritten in place between two Encrypt calls: the second ciphertext does not decrypt under the second context info: %v", s.cfg, err)
+	}
+	if _, err := s.dec.Decrypt(ctB, bytes.Clone(infoA)); err == nil {
+		fail("info-buffer-reuse", "%s: context-info buffer rewritten in place between two Encrypt calls: the second ciphertext is bound to the FIRST context info", s.cfg)
+	}
+	buf2 := bytes.Clone(infoA)
+	if got, err := s.dec.Decrypt(ctA, buf2); err != nil || !bytes.Equal(got, pt) {
+		fail("roundtrip", "%s: Decrypt of the first ciphertext under the first context info: %v", s.cfg, err)
+	}
+	copy(buf2, infoB)
+	if _, err := s.dec.Decrypt(ctA, buf2); err == nil {
+		fail("info-buffer-reuse", "%s: context-info buffer rewritten in place between two Decrypt calls: the first ciphertext is still accepted under the second context info", s.cfg)
+	}
+	if got, err := s.dec.Decrypt(ctB, buf2); err != nil || !bytes.Equal(got, pt) {
+		fail("info-buffer-reuse", "%s: context-info buffer rewritten in place between two Decrypt calls: the second ciphertext is rejected under its own context info: %v", s.cfg, err)
+	}
 }
 
 func main() {
